@@ -333,6 +333,41 @@ def chains(ctx, r, n_chains):
 
 
 # ---------------------------------------------------------------------------------------- index
+def short_lived(ctx, db, aff, r, n_rounds):
+    """IndexAsScalar / ChangingIndex on arrays that live for one question only: each array is created, asked once in
+    another unit and dropped, and the next one (other values, same size - the allocator hands out the same address
+    again and again) is asked the same. Anything remembered per object identity answers with a dead array's amounts."""
+    from barril.units import FixedArray, ObtainQuantity
+
+    pairs = [("length", "m", "cm"), ("length", "km", "ft"), ("time", "s", "min"), ("temperature", "degC", "K"), ("mass", "kg", "g")]
+    reused = 0
+    for c, u, v in pairs:
+        q = ObtainQuantity(v, c)
+        seen_ids = set()
+        for k in range(n_rounds):
+            d = 3
+            vals = [float(k + 1), float(r.randint(-50, 50)), 0.5 * k]
+            kind = ("list", "tuple", "nd")[k % 3]
+            a = FixedArray(d, c, cont(vals, kind), u)
+            reused += id(a) in seen_ids
+            seen_ids.add(id(a))
+            i = k % d
+            ctx.ev()
+            ctx.nt(("short-lived", c, kind, i))
+            s = a.IndexAsScalar(i, q)
+            ok, exp = near(ctx, aff, s.GetValue(), vals[i], u, v)
+            if not ok:
+                ctx.violation("IndexAsScalar-value:short-lived-array", {"category": c, "unit": u, "asked_in": v, "values": vals, "index": i, "observed": s.GetValue(), "expected": exp, "round": k})
+                break
+            b = a.ChangingIndex(i, (None, v))
+            ok2 = all(near(ctx, aff, g, x, u, v)[0] for g, x in zip(b.GetValues(), vals))
+            if not ok2:
+                ctx.violation("ChangingIndex-values:short-lived-array", {"category": c, "unit": u, "asked_in": v, "values": vals, "observed": list(b.GetValues()), "round": k})
+                break
+            del a, s, b
+    ctx.count("short-lived arrays allocated at an address used before", reused)
+
+
 def near(ctx, aff, obs, x, u, v):
     """obs ~ Convert(u -> v, x) judged against the database's own float conversion + error scale."""
     au, av = aff[u], aff[v]
@@ -582,6 +617,7 @@ def run(ctx):
             chains(ctx, ctx.rng("chains%d" % rep), 500 * scale)
             do_sweep(ctx, "chains")
             index_ops(ctx, db, aff, ctx.rng("index%d" % rep), 500 * scale)
+            short_lived(ctx, db, aff, ctx.rng("short%d" % rep), 40 * scale)
             curves(ctx, ctx.rng("curves%d" % rep), 250 * scale)
             do_sweep(ctx, "curves")
         if ctx.shard == 0:
